@@ -101,7 +101,8 @@ uint8_t *tlv2str(struct tlv *tlv) {
         return NULL;
     uint8_t *s = malloc(tlv->l + 1);
     if (s) {
-        memcpy(s, tlv->v, tlv->l);
+        if (tlv->l)
+            memcpy(s, tlv->v, tlv->l);
         s[tlv->l] = '\0';
     }
     return s;
